@@ -245,6 +245,26 @@ let () =
            (match get_decoded decompress enc with
             | POk out -> Printf.sprintf "ok %d %d" (List.length out) (digest out)
             | PErr -> "err" | PPanic -> "panic"))
+    | id :: "PAYBATCH" :: "|" :: ops ->
+      (* a batch of entries decoded the way rsm.handleBatch does: by payload_roundtrip
+         every entry's payload is the original one, whatever else is in the batch *)
+      let rec split acc cur = function
+        | [] -> List.rev (if cur = [] then acc else List.rev cur :: acc)
+        | ";" :: r -> split (List.rev cur :: acc) [] r
+        | t :: r -> split acc (t :: cur) r in
+      let digest l = List.fold_left (fun s x -> (s * 31 + x) mod 1000000007) 7 l in
+      let one = function
+        | [_ct; rule; a; b] ->
+          let a = int_of_string a and b = int_of_string b in
+          let bytes_i =
+            match rule with
+            | "rep" -> List.init b (fun _ -> a land 255)
+            | "recpad" -> List.init 40 (fun i -> (a * 31 + i * 7) land 255) @ List.init b (fun _ -> 0)
+            | "runs" -> List.init b (fun i -> (a + i / 97) land 255)
+            | _ -> failwith ("unknown rule " ^ rule) in
+          Printf.sprintf " %d:%d" (List.length bytes_i) (digest bytes_i)
+        | _ -> failwith "bad PAYBATCH op" in
+      Printf.printf "%s PAYBATCH%s\n" id (String.concat "" (List.map one (split [] [] ops)))
     | [id; "PAYDEC"; hx] ->
       Printf.printf "%s PAYDEC %s\n" id
         (match get_decoded (fun _ -> None) (bytes_of_hex hx) with
@@ -255,6 +275,29 @@ let () =
       let enc = transport_encrypted c in
       Printf.printf "%s CFGFRAME ENC %d %s\n" id (if enc then 1 else 0)
         (show_verdict (read_frame enc (bytes_of_hex st)))
+    | id :: "SERVE" :: m :: _rb :: "|" :: ops ->
+      (* ops: tag:hex separated by ";" - the connection carries the concatenation *)
+      let chunks = List.filter (fun t -> t <> ";") ops in
+      let stream = List.concat (List.map (fun t ->
+        match String.index_opt t ':' with
+        | Some i -> bytes_of_hex (String.sub t (i + 1) (String.length t - i - 1))
+        | None -> []) chunks) in
+      let c = { c_mutual_tls = bool_of_string01 m; c_cafile = false; c_certfile = false; c_keyfile = false } in
+      let enc = transport_encrypted c in
+      let refuse_id = n_of_int 424242 in
+      let handle (h : header) (p : bytes) =
+        if h.h_method = raft_type then
+          (match bt_decode p with Some _ -> Accepted | None -> Undecodable)
+        else
+          (match ck_decode p with
+           | Some ck -> if ck.ck_id = refuse_id then Refused else Accepted
+           | None -> Undecodable) in
+      let ((d, u), a) = serve_conn enc handle stream in
+      let digest l = List.fold_left (fun s x -> (s * 31 + int_of_n x) mod 1000000007) 7 l in
+      Printf.printf "%s SERVE N %d%s UNREAD %s ACK %d\n" id (List.length d)
+        (String.concat "" (List.map (fun ((h : header), p) ->
+           Printf.sprintf " %s:%d:%d" (string_of_n h.h_method) (List.length p) (digest p)) d))
+        (string_of_n u) (if a then 1 else 0)
     | [id; "CRC"; p] ->
       Printf.printf "%s CRC %s\n" id (string_of_n (crc32 (bytes_of_hex p)))
     | [id; "ENTRY"; t; i; ty; k; c; s; r; cmd] ->
